@@ -160,9 +160,43 @@ static int soak(size_t count, int order, int check) {
     return 0;
 }
 
+/* --big <seed>: matrices of thousands of observations, generated here from a 64-bit LCG in
+ * integer arithmetic (the Rust side generates the same bits: `kvh capibig`), every enumerator by
+ * NAME, double and float; prints one digest line per call (FNV-1a over every field of every step). */
+static uint64_t lcg(uint64_t *s) { *s = *s * 6364136223846793005ULL + 1442695040888963407ULL; return *s; }
+static uint64_t fnv(uint64_t h, uint64_t v) { for (int k = 0; k < 8; k++) { h ^= (v >> (8 * k)) & 0xff; h *= 0x100000001b3ULL; } return h; }
+static int big(uint64_t seed) {
+    static const char *names[7] = {"single", "complete", "average", "weighted", "ward", "centroid", "median"};
+    static const size_t sizes[3] = {2048, 2049, 2311};
+    for (int si = 0; si < 3; si++) for (int mi = 0; mi < 7; mi++) for (int wide = 1; wide >= 0; wide--) {
+        size_t n = sizes[si], len = n * (n - 1) / 2;
+        kodama_method m; if (!method_by_name(names[mi], &m)) return 2;
+        uint64_t st = seed * 1000003ULL + (uint64_t)(si * 100 + mi * 10 + wide);
+        kodama_dendrogram *d;
+        if (wide) {
+            double *v = malloc(len * sizeof(double));
+            for (size_t k = 0; k < len; k++) v[k] = 1.0 + (double)(lcg(&st) >> 12) / 4503599627370496.0;
+            d = kodama_linkage_double(v, n, m); free(v);
+        } else {
+            float *v = malloc(len * sizeof(float));
+            for (size_t k = 0; k < len; k++) v[k] = (float)(1.0 + (double)(lcg(&st) >> 12) / 4503599627370496.0);
+            d = kodama_linkage_float(v, n, m); free(v);
+        }
+        size_t dl = kodama_dendrogram_len(d);
+        uint64_t h = 0xcbf29ce484222325ULL;
+        h = fnv(h, kodama_dendrogram_observations(d)); h = fnv(h, dl);
+        kodama_step *stp = dl ? kodama_dendrogram_steps(d) : NULL;
+        for (size_t i = 0; i < dl; i++) { h = fnv(h, stp[i].cluster1); h = fnv(h, stp[i].cluster2); h = fnv(h, dbits(stp[i].dissimilarity)); h = fnv(h, stp[i].size); }
+        printf("BIG %s %s %zu %" PRIu64 "\n", names[mi], wide ? "double" : "float", n, h);
+        kodama_dendrogram_free(d);
+    }
+    return 0;
+}
+
 int main(int argc, char **argv) {
     int threads = 1; const char *path = NULL;
     for (int i = 1; i < argc; i++) {
+        if (!strcmp(argv[i], "--big") && i + 1 < argc) return big(strtoull(argv[i + 1], NULL, 10));
         if (!strcmp(argv[i], "--soak") && i + 2 < argc) {
             printf("soak\n"); fflush(stdout);
             int w = soak(64, 0, 0);   /* warm-up: stdio buffers and the like are allocated once */
